@@ -47,7 +47,11 @@ func c08Start(r *Router, h *handler, ctx context.Context) {
 func HarnessC08Route() {
 	r, _ := NewRouter(RouterConfig{}, watermill.NopLogger{})
 	topics := []string{"t0", "t1"}
-	pubA, pubB := &c08PubA{}, &c08PubB{}
+	// pubA and pubA2 are two publisher values of one Go type, pubB has a type of its own
+	pubA, pubA2, pubB := &c08PubA{}, &c08PubA{}, &c08PubB{}
+	if vrt.Bool("router.has.a.publisher.decorator") {
+		r.AddPublisherDecorators(MessageTransformPublisherDecorator(func(m *Message) {}))
+	}
 	var seen []c08Seen
 	var outs [2][]*Message
 	var m0, m1 *Message
@@ -58,7 +62,10 @@ func HarnessC08Route() {
 		subTopic := vrt.PickStr(p+"subtopic", topics[0], topics[1])
 		pubTopic := vrt.PickStr(p+"pubtopic", topics[0], topics[1])
 		var pub Publisher = pubA
-		if vrt.Bool(p + "pubB") {
+		switch vrt.Int(p+"publisher", 0, 2) {
+		case 1:
+			pub = pubA2
+		case 2:
 			pub = pubB
 		}
 		nOut := 2 * vrt.Int(p+"nout", 0, 1)
@@ -166,9 +173,12 @@ func HarnessC08Route() {
 		}
 		total++
 		var calls []pubCall
-		if p == Publisher(pubA) {
+		switch p {
+		case Publisher(pubA):
 			calls = pubA.calls
-		} else {
+		case Publisher(pubA2):
+			calls = pubA2.calls
+		default:
 			calls = pubB.calls
 		}
 		found := false
@@ -203,8 +213,8 @@ func HarnessC08Route() {
 	if redeliveredTo0 {
 		total++ // handler 0 ran twice
 	}
-	vrt.Assert(len(pubA.calls)+len(pubB.calls) == total, "and nowhere else")
-	vrt.Observe("pubcalls", len(pubA.calls)+len(pubB.calls))
+	vrt.Assert(len(pubA.calls)+len(pubA2.calls)+len(pubB.calls) == total, "and nowhere else")
+	vrt.Observe("pubcalls", len(pubA.calls)+len(pubA2.calls)+len(pubB.calls))
 	cancel()
 }
 
